@@ -329,3 +329,9 @@ mod tests {
         "test  test",
     );
 }
+
+#[cfg(kani)]
+mod verif_kani {
+    use super::*;
+    include!(concat!(env!("RG_VERIF_KANI_DIR"), "/matcher/interpolate.rs"));
+}
